@@ -150,6 +150,10 @@ func genData(r *Rng) map[string]any {
 	d["emp"] = []any{}
 	d["st"] = T1{Name: "Sue", Age: 3, Tags: []string{"t1", "t2"}}
 	d["nilv"] = nil
+	if r.Chance(8) { // the data may shadow built-in names: they are resolved last
+		d[r.Pick([]string{"true", "false"})] = r.Pick([]string{"mine", "7", "true"})
+	}
+	d["p4"], d["q4"] = &T4{N: int64(r.Intn(3))}, &T4{N: int64(10 + r.Intn(3))} // two receivers of one type with different method results
 	d["fname"] = r.Pick([]string{"f1", "f1", "f2", "f3", "nosuch"})
 	d["fnames"] = []any{r.Pick([]string{"f1", "f2"}), r.Pick([]string{"f1", "f2", "f3"}), "f1"}[:1+r.Intn(3)]
 	return d
